@@ -593,6 +593,15 @@ def r_queue_cap(e, R):
             for d in defs:
                 expand(fn, d, depth + 1)
             return
+        # a read-only property of the executor computing the value: follow it
+        if isinstance(x, ast.Attribute) and isinstance(x.value, ast.Name) and fn.params and x.value.id == fn.params[0] and fn.cls is not None and depth < 3:
+            pm = e.pt.lookup_method(fn.cls.qualname, x.attr)
+            pm = pm if pm is None or hasattr(pm, "qualname") else e.prog.funcs.get(pm)
+            if pm is not None and "property" in pm.decorators:
+                rets_ = [r_ for r_ in func_nodes(pm) if isinstance(r_, ast.Return) and r_.value is not None]
+                if len(rets_) == 1:
+                    expand(pm, rets_[0].value, depth + 1)
+                    return
         sources.append((fn, inline_locals(e, fn, x)))
     expand(f, arg)
     if not sources:
